@@ -34,7 +34,8 @@ RULE = ("(fft size in {2,4,6,7,8,12,16,32,64,128,256,1024,2048} incl. odd "
         "created through the antenna-aware interface (TdlMimoChannel 1x1, "
         "SuMimoChannel, SuChannel with a path loss of 0..60 dB) in either link "
         "direction. "
-        "The channel-1x1 generator also covers one-transmit / N-receive channels (1xN in the reverse direction, Nx1 forward) fed with the 1-D signal, one receive antenna equalised with its own taps; in 30 % of the channel cases the equalizer is created before the modem is re-configured with set_parameters. ")
+        "The channel-1x1 generator also covers one-transmit / N-receive channels (1xN in the reverse direction, Nx1 forward) fed with the 1-D signal, one receive antenna equalised with its own taps; in 30 % of the channel cases the equalizer is created before the modem is re-configured with set_parameters. "
+        "One channel case in 80 is a 1024/2048-point frame of 4-7 symbols. ")
 ASSUMPTIONS = ["a time-invariant channel is a Jakes generator with zero Doppler",
                "cases with min|H| < 1e-6 max|H| over the used subcarriers are "
                "tallied as ill-conditioned (the equaliser divides by H)",
@@ -272,8 +273,13 @@ def gen_taps(rng, cp, fft):
 
 def case_channel(ctx, rng, idx):
     fft = FFTS[idx % 11]                       # up to 256 for the channel part
+    long_frame = idx % 80 == 7
+    if long_frame:
+        fft = int(rng.choice([1024, 2048]))    # a wide-band frame of several symbols
     c = rng.random()
     cp = fft if c < 0.25 else (0 if c < 0.35 else int(rng.integers(0, fft + 1)))
+    if long_frame:
+        cp = int(rng.choice([64, 72, 144]))
     maxused = fft - (fft % 2)
     used = maxused if rng.random() < 0.4 else 2 * int(rng.integers(1, maxused // 2 + 1))
     delays, powers, mem, mclass = gen_taps(rng, cp, fft)
@@ -298,6 +304,8 @@ def case_channel(ctx, rng, idx):
     if not okc:
         return
     n = int(rng.integers(1, 3 * used + 1))
+    if long_frame:
+        n = used * int(rng.integers(4, 8)) - int(rng.integers(0, 3))
     x = rand_c(rng, n)
     y = np.asarray(o.modulate(x))
     okc, r = ctx.call("equalised-equals-input", ch.corrupt_data, y, cls="corrupt_data", detail=tag)
